@@ -89,14 +89,8 @@ Fixpoint hse (wl : list string) (e : expr) : bool :=
 Fixpoint leval (e : expr) : res val :=
   match e with
   | EConst v => Val v
-  | ETuple es =>
-      l <- (fix go (l : list expr) : res (list val) :=
-              match l with [] => Val [] | x :: tl => v <- leval x ;; r <- go tl ;; Val (v :: r) end) es ;;
-      Val (VTuple l)
-  | EList es =>
-      l <- (fix go (l : list expr) : res (list val) :=
-              match l with [] => Val [] | x :: tl => v <- leval x ;; r <- go tl ;; Val (v :: r) end) es ;;
-      Val (VList l)
+  | ETuple es => l <- eval_list leval es ;; Val (VTuple l)
+  | EList es => l <- eval_list leval es ;; Val (VList l)
   | EUn UNeg (EConst (VInt z)) => Val (VInt (- z))     (* type(value) in (int, float, complex) *)
   | EUn UPos (EConst (VInt z)) => Val (VInt z)
   | ECall f [] [] => if String.eqb f "set" then Gap else Exc KValue
@@ -114,7 +108,22 @@ Definition wrap (r : res val) : lvres :=
   | Gap => LGap
   end.
 
-Definition is_const (e : expr) : bool := match e with EConst _ => true | _ => false end.
+(* Compare: all(op(literal_value(l), literal_value(r)) for l, op, r in zip([left] + comparators, ops,
+   comparators)) -- a bool; [ev prev] is evaluated again for every pair *)
+Section CmpAll.
+Variable ev : expr -> res val.
+(* [rprev]: the (re-)evaluation of the left operand of the current pair *)
+Fixpoint cmp_all (rprev : res val) (l : list (cmpop * expr)) : res val :=
+  match l with
+  | [] => Val (VBool true)
+  | (o, b) :: tl =>
+      match table_fn (OC o) with
+      | Some f => x <- rprev ;; y <- ev b ;; r <- opfn_apply f x y ;;
+                  if truthy r then cmp_all (ev b) tl else Val (VBool false)
+      | None => Exc KValue                               (* KeyError is an Exception *)
+      end
+  end.
+End CmpAll.
 
 Fixpoint lv (e : expr) : lvres :=
   wrap
@@ -128,46 +137,24 @@ Fixpoint lv (e : expr) : lvres :=
      | ECmp a rest =>
          match rest with
          | [] => Gap                                      (* not a Python expression *)
-         | _ =>
-           (fix go (lvprev : lvres) (l : list (cmpop * expr)) : res val :=
-              match l with
-              | [] => Val (VBool true)
-              | (o, b) :: tl =>
-                  match table_fn (OC o) with
-                  | Some f =>
-                      x <- sub lvprev ;; y <- sub (lv b) ;; r <- opfn_apply f x y ;;
-                      if truthy r then go (lv b) tl else Val (VBool false)
-                  | None => Exc KValue                    (* KeyError is an Exception *)
-                  end
-              end) (lv a) rest
+         | _ => cmp_all (fun x => sub (lv x)) (sub (lv a)) rest
          end
      | EUn UNot a => v <- sub (lv a) ;; Val (VBool (negb (truthy v)))
      | EBool isand es =>
          match es with
          | [] => Exc KValue
-         | _ =>
-           (fix go (l : list expr) : res val :=
-              match l with
-              | [] => Gap
-              | [x] => sub (lv x)
-              | x :: tl => v <- sub (lv x) ;; if Bool.eqb (truthy v) isand then go tl else Val v
-              end) es
+         | _ => boolop_go (fun x => sub (lv x)) isand es
          end
      | EMeth recv m args kws =>
          match kws with
-         | [] =>
-             a <- (fix go (l : list expr) : res (list val) :=
-                     match l with [] => Val [] | x :: tl => v <- sub (lv x) ;; r <- go tl ;; Val (v :: r) end) args ;;
-             call_method recv m a
+         | [] => a <- eval_list (fun x => sub (lv x)) args ;; call_method recv m a
          | _ => Exc KValue                               (* literal_eval of a Call *)
          end
      | ECall f args kws =>
          match kws with
          | [] =>
              if mem_str f PURE_BUILTIN_FUNCTIONS then
-               a <- (fix go (l : list expr) : res (list val) :=
-                       match l with [] => Val [] | x :: tl => v <- sub (lv x) ;; r <- go tl ;; Val (v :: r) end) args ;;
-               call_builtin f a
+               a <- eval_list (fun x => sub (lv x)) args ;; call_builtin f a
              else leval e
          | _ => leval e
          end
